@@ -638,6 +638,308 @@ class Refused(Exception):
     """the oracle says: these arguments are outside the documented domain"""
 
 
+
+# ---- oracle values for composed infix expressions: the same Python expression text is evaluated
+# ---- once on FNodes (building the formula through the infix layer) and once on these plain
+# ---- values (the mathematical meaning of the operators), never touching pySMT
+def _euclid_div(a, d):
+    return a // d if d > 0 else -(a // -d)
+
+
+class OB(object):
+    """Boolean value"""
+    def __init__(self, v):
+        self.v = bool(v.v if isinstance(v, OB) else v)
+
+    @staticmethod
+    def of(o):
+        if isinstance(o, OB):
+            return o.v
+        if isinstance(o, bool):
+            return o
+        raise Refused()
+
+    def __and__(self, o): return OB(self.v and OB.of(o))
+    __rand__ = __and__
+    def __or__(self, o): return OB(self.v or OB.of(o))
+    __ror__ = __or__
+    def __xor__(self, o): return OB(self.v != OB.of(o))
+    __rxor__ = __xor__
+    def __invert__(self): return OB(not self.v)
+    def Implies(self, o): return OB((not self.v) or OB.of(o))
+    def Iff(self, o): return OB(self.v == OB.of(o))
+    def And(self, o): return OB(self.v and OB.of(o))
+    def Or(self, o): return OB(self.v or OB.of(o))
+    def Ite(self, a, b): return a if self.v else b
+
+
+class ON(object):
+    """integer (Python int) or real (Fraction) value"""
+    def __init__(self, v):
+        self.v = v
+
+    def co(self, o):
+        if isinstance(o, ON):
+            return o.v
+        if isinstance(self.v, Fraction):
+            if isinstance(o, bool) or not isinstance(o, (int, Fraction, float)):
+                raise Refused()
+            return Fraction(o)
+        if type(o) is int:
+            return o
+        raise Refused()
+
+    def mk(self, v): return ON(v)
+    def __add__(self, o): return self.mk(self.v + self.co(o))
+    __radd__ = __add__
+    def __sub__(self, o): return self.mk(self.v - self.co(o))
+    def __rsub__(self, o): return self.mk(self.co(o) - self.v)
+    def __mul__(self, o): return self.mk(self.v * self.co(o))
+    __rmul__ = __mul__
+    def __neg__(self): return self.mk(-self.v)
+
+    def __truediv__(self, o):
+        d = self.co(o)
+        if d == 0:
+            raise ZeroDivisionError()
+        return self.mk(self.v / d if isinstance(self.v, Fraction) else _euclid_div(self.v, d))
+
+    def __lt__(self, o): return OB(self.v < self.co(o))
+    def __le__(self, o): return OB(self.v <= self.co(o))
+    def __gt__(self, o): return OB(self.v > self.co(o))
+    def __ge__(self, o): return OB(self.v >= self.co(o))
+    def Equals(self, o): return OB(self.v == self.co(o))
+    def NotEquals(self, o): return OB(self.v != self.co(o))
+
+
+class OV(object):
+    """bit-vector value (unsigned representative)"""
+    def __init__(self, w, n):
+        self.w, self.n = w, n & mask(w)
+
+    def co(self, o):
+        if isinstance(o, OV):
+            if o.w != self.w:
+                raise Refused()
+            return o.n
+        if type(o) is int and 0 <= o < (1 << self.w):
+            return o
+        raise Refused()
+
+    def mk(self, n): return OV(self.w, n)
+    def __add__(self, o): return self.mk(self.n + self.co(o))
+    __radd__ = __add__
+    def __sub__(self, o): return self.mk(self.n - self.co(o))
+    def __rsub__(self, o): return self.mk(self.co(o) - self.n)
+    def __mul__(self, o): return self.mk(self.n * self.co(o))
+    __rmul__ = __mul__
+    def __truediv__(self, o): return self.mk(udiv(self.w, self.n, self.co(o)))
+    def __mod__(self, o): return self.mk(urem(self.w, self.n, self.co(o)))
+    def __and__(self, o): return self.mk(self.n & self.co(o))
+    __rand__ = __and__
+    def __or__(self, o): return self.mk(self.n | self.co(o))
+    __ror__ = __or__
+    def __xor__(self, o): return self.mk(self.n ^ self.co(o))
+    __rxor__ = __xor__
+    def __lshift__(self, o): return self.mk(shl(self.w, self.n, self.co(o)))
+    def __rshift__(self, o): return self.mk(lshr(self.w, self.n, self.co(o)))
+    def __neg__(self): return self.mk(-self.n)
+    def __invert__(self): return self.mk(~self.n)
+    def __lt__(self, o): return OB(self.n < self.co(o))
+    def __le__(self, o): return OB(self.n <= self.co(o))
+    def __gt__(self, o): return OB(self.n > self.co(o))
+    def __ge__(self, o): return OB(self.n >= self.co(o))
+    def Equals(self, o): return OB(self.n == self.co(o))
+    def NotEquals(self, o): return OB(self.n != self.co(o))
+    def BVSLT(self, o): return OB(sgn(self.w, self.n) < sgn(self.w, self.co(o)))
+    def BVSGE(self, o): return OB(sgn(self.w, self.n) >= sgn(self.w, self.co(o)))
+    def BVAShr(self, o): return self.mk(ashr(self.w, self.n, self.co(o)))
+    def BVSMod(self, o): return self.mk(smod(self.w, self.n, self.co(o)))
+    def BVXnor(self, o): return self.mk(~(self.n ^ self.co(o)))
+
+
+def o_wrap(v):
+    if isinstance(v, bool):
+        return OB(v)
+    if isinstance(v, (int, Fraction)):
+        return ON(v)
+    return OV(v[1], v[2])
+
+
+def o_unwrap(o):
+    if isinstance(o, OB):
+        return o.v
+    if isinstance(o, ON):
+        return o.v
+    if isinstance(o, OV):
+        return ("bv", o.w, o.n)
+    raise Refused()
+
+
+EXPR_VAR = re.compile(r"\b([nb])(\d)\b")
+
+
+def expr_form(text, base):
+    """SForm of a Python infix expression over n0..n3 (sort `base`) and b0..b2 (Bool)"""
+    used = sorted(set(m.group(0) for m in EXPR_VAR.finditer(text)), key=lambda x: (x[0] != "n", x))
+    sorts = [base if v[0] == "n" else "bool" for v in used]
+    code = compile(text, "<expr>", "eval")
+
+    def build(W, a):
+        return eval(code, {"Fraction": Fraction, "__builtins__": {}}, dict(zip(used, a)))
+
+    def oracle(v):
+        return o_unwrap(eval(code, {"Fraction": Fraction, "__builtins__": {}},
+                             dict(zip(used, [o_wrap(x) for x in v]))))
+    F = SForm("expr " + text, sorts, build, oracle)
+    F.expr = True
+    return F
+
+
+def lit_text(rng, base):
+    if base == "int":
+        return rng.choice(["0", "1", "2", "3", "5", "(-1)", "(-4)"])
+    if base == "real":
+        return rng.choice(["0", "1", "2", "(-3)", "Fraction(1, 2)", "Fraction(-5, 3)", "0.25"])
+    return str(rng.randrange(1 << base[1]))
+
+
+def gen_num(rng, base, depth):
+    """text of a numeric expression (never a bare literal)"""
+    if depth <= 0 or rng.random() < 0.15:
+        return "n%d" % rng.randrange(3)
+    bv = isinstance(base, tuple)
+    r = rng.random()
+    if r < 0.22:
+        return "(-%s)" % gen_num(rng, base, depth - 1)
+    if bv and r < 0.30:
+        return "(~%s)" % gen_num(rng, base, depth - 1)
+    if r < 0.36 and depth >= 2:
+        return "(%s).Ite(%s, %s)" % (gen_bool(rng, base, depth - 1), gen_num(rng, base, depth - 1),
+                                     gen_num(rng, base, depth - 1))
+    ops = ["+", "-", "*", "*", "-"] + (["/", "%", "&", "|", "^", "<<", ">>"] if bv else [])
+    o = rng.choice(ops)
+    left = gen_num(rng, base, depth - 1)
+    k = rng.random()
+    if k < 0.25:
+        return "(%s %s %s)" % (left, o, lit_text(rng, base))
+    if k < 0.40 and o in ("+", "-", "*", "&", "|", "^"):
+        return "(%s %s %s)" % (lit_text(rng, base), o, left)
+    if not bv and rng.random() < 0.1:
+        d = rng.choice(["2", "3", "(-2)"]) if base == "int" else rng.choice(["2", "Fraction(-1, 3)", "0.5"])
+        return "(%s / %s)" % (left, d)
+    return "(%s %s %s)" % (left, o, gen_num(rng, base, depth - 1))
+
+
+def gen_bool(rng, base, depth):
+    if depth <= 0 or rng.random() < 0.15:
+        return "b%d" % rng.randrange(2)
+    r = rng.random()
+    if r < 0.45:
+        a = gen_num(rng, base, depth - 1)
+        b = lit_text(rng, base) if rng.random() < 0.3 else gen_num(rng, base, depth - 1)
+        c = rng.choice(["<", "<=", ">", ">=", "Equals", "NotEquals"])
+        if c in ("Equals", "NotEquals"):
+            return "(%s).%s(%s)" % (a, c, b)
+        if rng.random() < 0.2 and not b.startswith("n") and not b.startswith("("):
+            return "(%s %s %s)" % (b, c, a)
+        return "(%s %s %s)" % (a, c, b)
+    if r < 0.55:
+        return "(~%s)" % gen_bool(rng, base, depth - 1)
+    a = gen_bool(rng, base, depth - 1)
+    b = rng.choice(["True", "False"]) if rng.random() < 0.15 else gen_bool(rng, base, depth - 1)
+    c = rng.choice(["&", "|", "^", "Implies", "Iff"])
+    if c in ("Implies", "Iff"):
+        return "(%s).%s(%s)" % (a, c, b)
+    if rng.random() < 0.3 and b in ("True", "False"):
+        return "(%s %s %s)" % (b, c, a)
+    return "(%s %s %s)" % (a, c, b)
+
+
+def expr_forms(rng, tier):
+    """composed infix expressions: a systematic family (negations / differences of products whose
+    leftmost factor is itself a negation or a sum) and random expression trees"""
+    out = []
+    texts = []
+    for base in ("int", "real"):
+        fac = ["n0", "n1", "(-n0)", "(-n1)", "3", "(n0 + n1)"]
+        left = ["(-n0)", "n0", "(n0 + 1)", "(-(n0 + n1))", "(2 - n1)"]
+        prods = ["(%s * %s)" % (l, f) for l in left for f in fac]
+        three = ["(%s * %s * %s)" % (l, f, g) for l in left for f in fac for g in fac]
+        rng.shuffle(three)
+        prods += three[:(30 if tier == "quick" else 180)]
+        outers = ["-%s", "(5 - %s)", "(%s - n1)", "(%s * n1)", "(-%s + 2)", "(n1 + %s)", "-(-%s)", "(%s < n1)"]
+        for P in prods:
+            for o in outers:
+                texts.append((o % P, base))
+    n = 100 if tier == "quick" else 600
+    for base in ("int", "real", ("bv", 2), ("bv", 3)):
+        for _ in range(n):
+            d = rng.choice([2, 3, 3])
+            texts.append((gen_num(rng, base, d) if rng.random() < 0.6 else gen_bool(rng, base, d), base))
+    seen = set()
+    for (t, base) in texts:
+        if (t, base) in seen or not EXPR_VAR.search(t):
+            continue
+        seen.add((t, base))
+        out.append(expr_form(t, base))
+    return out
+
+
+def variant_forms(forms, tier):
+    """the same form on permuted argument lists (call history on one manager: these are built
+    after the originals), on lists with repeated operands, and on lists in which the same
+    compound operand is built twice (`x+1, y, x+1`: one node by hash-consing)"""
+    out = []
+    perms = {2: [[1, 0]], 3: [[2, 1, 0], [1, 0, 2]], 4: [[3, 2, 1, 0], [1, 0, 3, 2]], 5: [[4, 3, 2, 1, 0]],
+             6: [[5, 4, 3, 2, 1, 0], [3, 4, 5, 0, 1, 2]]}
+    reps = {2: [[0, 0]], 3: [[0, 1, 0], [0, 0, 1], [0, 0, 0]], 4: [[0, 1, 1, 0], [1, 0, 1, 0]],
+            5: [[0, 1, 2, 1, 0]], 6: [[0, 1, 2, 0, 1, 2]]}
+    comp = {2: [[0, 0]], 3: [[0, 1, 0]], 4: [[0, 1, 1, 0]]}
+    for F in forms:
+        k = len(F.sorts)
+        if k < 2 or len(set(F.sorts)) != 1 or getattr(F, "expr", False):
+            continue
+        s0 = F.sorts[0]
+        if isinstance(s0, tuple) and s0[1] > (2 if tier == "quick" else 3):
+            continue
+
+        def mkv(tag, idxs, bump, F=F, s0=s0):
+            n = max(idxs) + 1
+
+            def tf(W, x):
+                m = W.mgr
+                if not bump:
+                    return x
+                if s0 == "bool":
+                    return m.Not(x)
+                if s0 == "int":
+                    return m.Plus(x, m.Int(1))
+                if s0 == "real":
+                    return m.Plus(x, m.Real(1))
+                return m.BVNot(x)
+
+            def tv(v):
+                if not bump:
+                    return v
+                if s0 == "bool":
+                    return not v
+                if s0 in ("int", "real"):
+                    return v + 1
+                return bvv(s0[1], ~v[2])
+            V = SForm("%s @%s%s" % (F.name, tag, "".join(str(i) for i in idxs)), [s0] * n,
+                      lambda W, a: F.build(W, [tf(W, a[i]) for i in idxs]),
+                      lambda v: F.oracle([tv(v[i]) for i in idxs]), True)
+            out.append(V)
+        for pi in perms.get(k, []):
+            mkv("perm", pi, False)
+        for ri in reps.get(k, []):
+            mkv("rep", ri, False)
+        for ci in comp.get(k, []):
+            mkv("same", ci, True)
+    return out
+
+
 class SForm:
     """one derived form: how to build it on formulas, the named function on values"""
 
@@ -921,6 +1223,7 @@ def s_forms(W, tier, rng):
                 return ("bv", w * len(v), acc)
             if w <= 2 or k <= 4:
                 add("BVConcat", [V] * k, lambda W, a: m.BVConcat(*a), cc)
+    forms = forms + variant_forms(forms, tier) + expr_forms(rng, tier)
     return forms
 
 
@@ -1043,8 +1346,16 @@ def run_s(ctx, W):
     for F in forms:
         syms = sort_symbols(W, F.sorts)
         out = outcome(lambda: F.build(W, syms))
-        asg, exh = assignments(ctx, F.sorts, cap, samples)
-        sig0 = {"oracle": "named-function", "form": re.sub(r"-?\d+", "k", F.name),
+        if getattr(F, "expr", False):
+            quick = ctx.tier == "quick"
+            asg, exh = assignments(ctx, F.sorts, 128 if quick else 4096,
+                                   (16 if quick else 80) if not all(finite(x) for x in F.sorts) else (48 if quick else 512))
+        elif " @" in F.name:
+            asg, exh = assignments(ctx, F.sorts, 512 if ctx.tier == "quick" else cap, 30 if ctx.tier == "quick" else 200)
+        else:
+            asg, exh = assignments(ctx, F.sorts, cap, samples)
+        sig0 = {"oracle": "named-function",
+                "form": "composed infix expression" if getattr(F, "expr", False) else re.sub(r"-?\d+", "k", F.name),
                 "sorts": ",".join(sorted({sort_name(s) for s in F.sorts})) or "-", "arity": str(len(F.sorts))}
         rep0 = {"form": F.name, "sorts": [sort_name(s) for s in F.sorts]}
         ctx.count("s_forms")
@@ -1164,8 +1475,19 @@ def replay(ctx, rep):
         s_consts(ctx, W)
         return
     # re-run exactly this form (all its assignments) against the current tree
-    forms = [F for F in s_forms(W, "thorough", ctx.rng)
-             if F.name == form and [sort_name(s) for s in F.sorts] == r.get("sorts")]
+    if form.startswith("expr "):
+        nb = [x for x in r.get("sorts", []) if x != "bool"]
+        base = "int" if not nb else (nb[0] if nb[0] in ("int", "real") else ("bv", int(nb[0][2:])))
+        forms = [expr_form(form[5:], base)]
+    else:
+        # a variant (` @perm…`, ` @rep…`) is replayed after its base form on the same manager:
+        # the order of the calls is part of the case
+        base = form.split(" @")[0]
+        want = r.get("sorts") or []
+        forms = [F for F in s_forms(W, "thorough", ctx.rng)
+                 if (F.name == form and [sort_name(s) for s in F.sorts] == want) or
+                    (form != base and F.name == base and want and
+                     set(sort_name(s) for s in F.sorts) == set(want))]
     saved = s_forms
 
     def only(W_, tier, rng):
